@@ -19,6 +19,7 @@ use crate::client::conn::Transport;
 
 use super::key::Token;
 use super::Config;
+use super::Interest;
 use super::PoolRef;
 use super::PoolableConnection;
 use super::Pooled;
@@ -201,6 +202,10 @@ where
     /// This checkout registered its connection attempt as the in-flight attempt
     /// other checkouts for the same key wait on.
     owns_connecting: bool,
+    /// The connection this checkout would make could be shared with other checkouts.
+    multiplex: bool,
+    /// The connector has been polled at least once.
+    started: bool,
     meta: ConnectorMeta,
     #[cfg(debug_assertions)]
     id: CheckoutId,
@@ -234,6 +239,12 @@ where
     fn as_delayed(self: Pin<&mut Self>) -> Option<Self> {
         let mut this = self.project();
 
+        if !*this.started {
+            // Our own connection attempt never started (we were served first, or were still
+            // waiting on another checkout's attempt): there is nothing to continue.
+            return None;
+        }
+
         match this.inner.as_mut().project() {
             CheckoutConnectingProj::ConnectingWithDelayDrop(connector) if connector.is_some() => {
                 tracing::trace!("converting checkout to delayed drop");
@@ -244,6 +255,8 @@ where
                     inner: InnerCheckoutConnecting::ConnectingDelayed(connector.take().unwrap()),
                     connection: None,
                     owns_connecting: *this.owns_connecting,
+                    multiplex: *this.multiplex,
+                    started: true,
                     meta: ConnectorMeta::new(), // New meta to avoid holding spans in the spawned task
                     #[cfg(debug_assertions)]
                     id: *this.id,
@@ -282,6 +295,8 @@ where
             inner: InnerCheckoutConnecting::Connecting(connector),
             connection: None,
             owns_connecting: false,
+            multiplex: false,
+            started: false,
             meta: ConnectorMeta::new(),
             #[cfg(debug_assertions)]
             id,
@@ -291,12 +306,17 @@ where
     pub(super) fn new(
         token: Token,
         pool: PoolRef<P::Connection, B>,
-        waiter: Receiver<Pooled<P::Connection, B>>,
+        interest: Interest<P::Connection, B>,
         connect: Option<Connector<T, P, B>>,
         connection: Option<P::Connection>,
-        owns_connecting: bool,
+        multiplex: bool,
         config: &Config,
     ) -> Self {
+        let (waiter, owns_connecting) = match interest {
+            Interest::Wait(rx) => (Waiting::Connecting(rx), false),
+            Interest::Connect(rx, owns) => (Waiting::Idle(rx), owns),
+        };
+
         #[cfg(debug_assertions)]
         let id = CheckoutId::new();
         let meta = ConnectorMeta::new();
@@ -309,10 +329,12 @@ where
             Self {
                 token,
                 pool,
-                waiter: Waiting::Idle(waiter),
+                waiter,
                 inner: InnerCheckoutConnecting::Connected,
                 connection,
                 owns_connecting,
+                multiplex,
+                started: false,
                 meta,
                 #[cfg(debug_assertions)]
                 id,
@@ -326,13 +348,17 @@ where
                 InnerCheckoutConnecting::Connecting(connector)
             };
 
+            // A checkout which waits for another checkout's attempt keeps its connector:
+            // it is used if that attempt ends without a connection for us.
             Self {
                 token,
                 pool,
-                waiter: Waiting::Idle(waiter),
+                waiter,
                 inner,
                 connection,
                 owns_connecting,
+                multiplex,
+                started: false,
                 meta,
                 #[cfg(debug_assertions)]
                 id,
@@ -342,10 +368,12 @@ where
             Self {
                 token,
                 pool,
-                waiter: Waiting::Connecting(waiter),
+                waiter,
                 inner: InnerCheckoutConnecting::Waiting,
                 connection,
                 owns_connecting,
+                multiplex,
+                started: false,
                 meta,
                 #[cfg(debug_assertions)]
                 id,
@@ -379,10 +407,32 @@ where
             // Open questions: Should we check the pool for a different connection when the
             // waiter is pending? Probably not, ideally our semantics should keep the pool
             // from containing multiple connections if they can be multiplexed.
-            if let WaitingPoll::Connected(connection) = ready!(this.waiter.as_mut().poll(cx)) {
-                debug!(token=?this.token, "connection recieved from waiter");
+            loop {
+                let waiting_on_attempt = matches!(&*this.waiter, Waiting::Connecting(_));
 
-                return Poll::Ready(Ok(connection));
+                match ready!(this.waiter.as_mut().poll(cx)) {
+                    WaitingPoll::Connected(connection) => {
+                        debug!(token=?this.token, "connection recieved from waiter");
+
+                        return Poll::Ready(Ok(connection));
+                    }
+                    WaitingPoll::Closed if waiting_on_attempt => {
+                        // The attempt we were waiting for is over and left nothing for us.
+                        // Ask the pool again: wait for the next attempt, or make our own.
+                        let Some(mut pool) = this.pool.lock() else {
+                            break;
+                        };
+                        trace!(token=?this.token, "awaited connection attempt ended, retrying");
+                        match pool.register_interest(*this.token, *this.multiplex) {
+                            Interest::Wait(rx) => this.waiter.set(Waiting::Connecting(rx)),
+                            Interest::Connect(rx, owns) => {
+                                *this.owns_connecting = owns;
+                                this.waiter.set(Waiting::Idle(rx));
+                            }
+                        }
+                    }
+                    _ => break,
+                }
             }
         }
 
@@ -408,6 +458,7 @@ where
                 Poll::Ready(Ok(checked_out(this.pool, *this.token, connection)))
             }
             CheckoutConnectingProj::Connecting(connector) => {
+                *this.started = true;
                 let result = ready!(connector.poll_connector(
                     {
                         let pool = this.pool.clone();
@@ -438,6 +489,7 @@ where
             }
             CheckoutConnectingProj::ConnectingWithDelayDrop(Some(connector))
             | CheckoutConnectingProj::ConnectingDelayed(connector) => {
+                *this.started = true;
                 let result = ready!(connector.as_mut().poll_connector(
                     {
                         let pool = this.pool.clone();
